@@ -182,7 +182,7 @@ def check(repo, rep):
                     if isinstance(par, ast.Attribute) and isinstance(getattr(par, '_parent', None), ast.Call) and par._parent.func is par:
                         meth = par.attr
                         call = par._parent
-                        rep.ob('F2: the inbox is used only through put / get / get_nowait', meth in ('put', 'get', 'get_nowait', 'put_nowait'), cx.where(mod, n), '%s.%s:inbox-method-%s' % (cl.name if cl else mod, fn.name if fn else '?', meth))
+                        rep.ob('F2: the inbox is used only through put / get / get_nowait', meth in ('put', 'get', 'get_nowait', 'put_nowait', 'empty', 'qsize'), cx.where(mod, n), '%s.%s:inbox-method-%s' % (cl.name if cl else mod, fn.name if fn else '?', meth))
                         if meth == 'get':
                             kws = {k.arg: k.value for k in call.keywords}
                             nonblocking = ('timeout' in kws and not (isinstance(kws['timeout'], ast.Constant) and kws['timeout'].value is None)) or \
@@ -197,7 +197,7 @@ def check(repo, rep):
                         okall = True
                         for u in uses_:
                             up = getattr(u, '_parent', None)
-                            if not (isinstance(up, ast.Attribute) and isinstance(getattr(up, '_parent', None), ast.Call) and up._parent.func is up and up.attr in ('put', 'get', 'get_nowait', 'put_nowait')):
+                            if not (isinstance(up, ast.Attribute) and isinstance(getattr(up, '_parent', None), ast.Call) and up._parent.func is up and up.attr in ('put', 'get', 'get_nowait', 'put_nowait', 'empty', 'qsize')):
                                 okall = False
                                 continue
                             if up.attr == 'get':
